@@ -44,6 +44,10 @@ type StopPlan struct {
 	Mode      string `json:"mode"`       // stop | cancel
 	AfterRecv int    `json:"after_recv"` // >=0: issued by the consumer while it holds delivery #k (before its release)
 	AtTime    int64  `json:"at_time_ns"` // used when AfterRecv < 0: issued by a separate goroutine at this virtual time
+	// AfterWrite > 0 (with AfterRecv < 0): issued by a separate goroutine as soon as the producer's
+	// write #AfterWrite has completed, while the producer carries on writing (a stop in the middle
+	// of a burst; the exact interleaving with the following writes is up to the scheduler)
+	AfterWrite int `json:"after_write,omitempty"`
 }
 
 // Script is one run.
@@ -63,7 +67,9 @@ type Script struct {
 	// parses one buffer would) instead of allocating each slice separately
 	SharedArray bool `json:"producer_shares_one_array"`
 	// SharedLayout: how the input slices are laid out in that array: 0 in the order they are sent,
-	// 1 neighbours swapped pairwise, 2 rotated by one (a producer filling a ring or sending out of order)
+	// 1 neighbours swapped pairwise, 2 rotated by one (a producer filling a ring or sending out of order),
+	// 3 overlapping windows of one constant block that the producer only reads (the same memory is
+	// sent again and again; the observed values are normalised to stream positions after the run)
 	SharedLayout int `json:"shared_array_layout"`
 	// unite: empty input slices are sent as nil instead of as zero-length slices
 	NilEmpty bool `json:"empty_slices_are_nil"`
@@ -221,6 +227,9 @@ func execute1(t *testing.T, s Script, leakScan bool, budget time.Duration) Trace
 			return
 		}
 		quit := make(chan struct{})     // ends harness helpers
+		writeTrig := make(chan struct{}) // closed when the producer's write #Stop.AfterWrite has completed
+		var trigOnce sync.Once
+		fireTrig := func() { trigOnce.Do(func() { close(writeTrig) }) }
 		stopDone := make(chan struct{}) // closed once Stop() has returned
 		var helpers sync.WaitGroup
 
@@ -234,6 +243,9 @@ func execute1(t *testing.T, s Script, leakScan bool, budget time.Duration) Trace
 				total += st.Len
 			}
 			arr := make([]int, total)
+			if s.SharedLayout == 3 {
+				arr = make([]int, windowBlock(s))
+			}
 			// offset of every input slice inside the shared array
 			order := make([]int, len(s.Prod))
 			for i := range order {
@@ -258,9 +270,22 @@ func execute1(t *testing.T, s Script, leakScan bool, budget time.Duration) Trace
 			// the producer has all its data in place before it starts sending
 			v := 0
 			for si, st := range s.Prod {
+				if s.SharedLayout == 3 {
+					break
+				}
 				for i := 0; i < st.Len; i++ {
 					arr[offs[si]+i] = v
 					v++
+				}
+			}
+			if s.SharedLayout == 3 {
+				// a constant block the producer only reads; its input slices are overlapping windows
+				// of it (the same memory is sent again and again)
+				for i := range arr {
+					arr[i] = i
+				}
+				for si := range s.Prod {
+					offs[si] = windowOffset(s, si)
 				}
 			}
 			for si, st := range s.Prod {
@@ -303,6 +328,9 @@ func execute1(t *testing.T, s Script, leakScan bool, budget time.Duration) Trace
 						return
 					}
 					wd := now()
+					if s.Stop != nil && s.Stop.AfterWrite > 0 && next+1 == s.Stop.AfterWrite {
+						fireTrig()
+					}
 					mu.Lock()
 					tr.InLens = append(tr.InLens, 1)
 					tr.WStart = append(tr.WStart, ws)
@@ -312,6 +340,7 @@ func execute1(t *testing.T, s Script, leakScan bool, budget time.Duration) Trace
 					next++
 				}
 			}
+			fireTrig() // a plan that asked for more writes than the script has: stop at the end of production
 			if s.NoClose && s.Stop != nil && s.Stop.AfterRecv < 0 && s.Kind == KindV1Join {
 				return
 			}
@@ -343,10 +372,18 @@ func execute1(t *testing.T, s Script, leakScan bool, budget time.Duration) Trace
 			helpers.Add(1)
 			go func() {
 				defer helpers.Done()
-				select {
-				case <-time.After(time.Duration(s.Stop.AtTime)):
-				case <-quit:
-					return
+				if s.Stop.AfterWrite > 0 {
+					select {
+					case <-writeTrig:
+					case <-quit:
+						return
+					}
+				} else {
+					select {
+					case <-time.After(time.Duration(s.Stop.AtTime)):
+					case <-quit:
+						return
+					}
 				}
 				doStop()
 			}()
@@ -525,7 +562,62 @@ func execute1(t *testing.T, s Script, leakScan bool, budget time.Duration) Trace
 	}
 	tr.Deadlock = res.Deadlock
 	tr.HarnessPanic = res.Panic
+	if s.Kind == KindV2Unite && s.SharedArray && s.SharedLayout == 3 {
+		normaliseWindows(s, &tr)
+	}
 	return tr
+}
+
+// windowBlock is the size of the constant block of layout 3; windowOffset the start of input
+// slice #si in it (windows slide by one element and wrap, so neighbours overlap almost wholly
+// and equal lengths repeat the very same slice every few sends).
+func windowBlock(s Script) int {
+	m := 0
+	for _, st := range s.Prod {
+		m = max(m, st.Len)
+	}
+	return m + 2
+}
+
+func windowOffset(s Script, si int) int {
+	return si % (windowBlock(s) - s.Prod[si].Len + 1)
+}
+
+// normaliseWindows rewrites the observed values of a layout-3 run into stream positions, the
+// form every oracle works with: element #i of the stream becomes i when it carries the value the
+// producer sent at that position, and -3000000-i when it carries anything else. Values the
+// consumer itself wrote (<= -1000000) are kept.
+func normaliseWindows(s Script, tr *Trace) {
+	var exp []int
+	for si, st := range s.Prod {
+		for j := 0; j < st.Len; j++ {
+			exp = append(exp, windowOffset(s, si)+j)
+		}
+	}
+	norm := func(pos int, raw []int) []int {
+		if raw == nil {
+			return nil
+		}
+		out := make([]int, len(raw))
+		for j, v := range raw {
+			switch {
+			case v <= -1000000:
+				out[j] = v
+			case pos+j < len(exp) && v == exp[pos+j]:
+				out[j] = pos + j
+			default:
+				out[j] = -3000000 - (pos + j)
+			}
+		}
+		return out
+	}
+	pos := 0
+	for i := range tr.Outs {
+		o := &tr.Outs[i]
+		n := len(o.Snap)
+		o.Snap, o.AtRel, o.Live = norm(pos, o.Snap), norm(pos, o.AtRel), norm(pos, o.Live)
+		pos += n
+	}
 }
 
 // Execute runs the script inside a bubble. A case that exceeds the real-time budget (a
